@@ -341,12 +341,19 @@ func suiteConvert(tier string, seed uint64, model string) *Report {
 	omit := keep
 	omit.OmitNil = true
 	pw := pretty.Writer{Options: keep, Width: 40, MaxDepth: 3}
+	oe, on, oen := keep, keep, keep
+	oe.OmitEmpty = true
+	on.OmitNil = true
+	oen.OmitEmpty, oen.OmitNil = true, true
+	omitVariants := []ojg.Options{oe, on, oen}
 
 	var cases []any
 	cases = append(cases,
 		map[string]any{"a": nil, "b": []any{}, "c": map[string]any{}, "d": []any{nil, []any{}, map[string]any{"a": nil}}},
 		[]any{uint64(math.MaxUint64), uint64(1 << 63), uint(math.MaxUint64), int8(-128), uint8(255)},
-		map[string]any{"": map[string]any{"": nil}}, nil, []any{}, map[string]any{})
+		map[string]any{"": map[string]any{"": nil}}, nil, []any{}, map[string]any{},
+		map[string]any{"owner": map[string]any{"x": "", "y": []any{}}, "k": int64(1), "n": map[string]any{"z": nil}},
+		[]any{map[string]any{"o": map[string]any{"e": map[string]any{}}}, map[string]any{"s": ""}})
 	for i := 0; i < n; i++ {
 		cases = append(cases, genTyped(r, 1+r.Intn(4), r.Chance(50)))
 	}
@@ -416,6 +423,15 @@ func suiteConvert(tier string, seed uint64, model string) *Report {
 				diff(desc, "oj.JSON", "impl-law:writers", safe(func() string { return oj.JSON(s, &keep) }), safe(func() string { return oj.JSON(g, &keep) }))
 				diff(desc, "sen.String", "impl-law:writers", safe(func() string { return sen.String(s, &keep) }), safe(func() string { return sen.String(g, &keep) }))
 				diff(desc, "pretty.JSON", "impl-law:writers", safe(func() string { return string(pw.Encode(s)) }), safe(func() string { return string(pw.Encode(g)) }))
+				// the same under the omit options
+				for oi2, oo := range omitVariants {
+					oo := oo
+					tag := fmt.Sprintf("/omit%d", oi2)
+					diff(desc, "oj.JSON"+tag, "impl-law:writers", safe(func() string { return oj.JSON(s, &oo) }), safe(func() string { return oj.JSON(g, &oo) }))
+					diff(desc, "sen.String"+tag, "impl-law:writers", safe(func() string { return sen.String(s, &oo) }), safe(func() string { return sen.String(g, &oo) }))
+					diff(desc, "pretty.JSON"+tag, "impl-law:writers", safe(func() string { return pretty.JSON(s, &oo) }), safe(func() string { return pretty.JSON(g, &oo) }))
+					diff(desc, "pretty.SEN"+tag, "impl-law:writers", safe(func() string { return pretty.SEN(s, &oo) }), safe(func() string { return pretty.SEN(g, &oo) }))
+				}
 				// and that text denotes view(v)
 				diff(desc, "oj.JSON/parse", "impl-vs-model:view", safe(func() string {
 					return bigToInt(Show(oj.MustParseString(oj.JSON(v, &keep))))
